@@ -234,11 +234,10 @@ Proof. vm_compute. repeat split; reflexivity. Qed.
      "template <file>:<line>:<col>: " for the very line and column it carries (file names without %).
    - C19_scan_prefix_determinism / C19_valid_scan_transfers: prefix determinism of the scanner -- two
      inputs with a common prefix pass through the same configurations as long as the cursor stays 24
-     bytes before the end of the common prefix (and the scan does not enter lexHeaderParam).
+     bytes before the end of the common prefix (all fifteen state functions).
    Still partial -- C19_fault_line_partial: the exact-line statements for an injected stray brace /
    illegal character are derived from the scan of the VALID file only under that margin (at least 24
-   bytes of plain text / white space between the configuration the valid scan reaches and the fault)
-   and for scans that do not pass through lexHeaderParam ({@param ...} header declarations). *)
+   bytes of plain text / white space between the configuration the valid scan reaches and the fault). *)
 From Soy Require Import Model.Utf8 Model.Token Model.Lexer Model.RawText Model.ExprParser Model.Parser
   Proofs.ErrTokProofs Proofs.ParseErrBound Proofs.LexErrPos Proofs.LexEofPos Proofs.ParseEndToEnd
   Spec.ErrText Proofs.LexTokens Proofs.LexFinalPos Proofs.ErrPosWindow Proofs.ErrPosWindowCmd Proofs.ErrPosFinal
@@ -325,7 +324,7 @@ Theorem C19_scan_prefix_determinism :
   forall ul ud pre r1 r2 base k st l st' l',
     psteps ul ud base (pre ++ r1) k st l = Ok (st', l') ->
     (forall j, (j <= k)%nat -> forall stj lj, psteps ul ud base (pre ++ r1) j st l = Ok (stj, lj) ->
-       good pre stj lj /\ ((j < k)%nat -> stj <> LHeaderParam)) ->
+       good pre stj lj) ->
     psteps ul ud base (pre ++ r2) k st l = Ok (st', l').
 Proof. exact steps_det. Qed.
 Print Assumptions C19_scan_prefix_determinism.
@@ -336,7 +335,7 @@ Theorem C19_valid_scan_transfers :
   forall pre r1 r2 k st l,
     steps ul ud (pre ++ r1) 0 k LText lex_init = Ok (st, l) -> st <> LDone ->
     (forall j stj lj, (j <= k)%nat -> steps ul ud (pre ++ r1) 0 j LText lex_init = Ok (stj, lj) ->
-       before_margin pre lj /\ ((j < k)%nat -> stj <> LHeaderParam)) ->
+       before_margin pre lj) ->
     steps ul ud (pre ++ r2) 0 k LText lex_init = Ok (st, l).
 Proof. exact valid_scan_transfers. Qed.
 Print Assumptions C19_valid_scan_transfers.
@@ -345,20 +344,20 @@ Print Assumptions C19_valid_scan_transfers.
      for every VALID file v, every line L of it and every injection of the fault on L, the error of the
      faulted file is reported on line L.
    Proved (1), from the scan of the valid file: v = pre ++ r1 any file whose scan reaches, after k steps
-   that keep the cursor M = 24 bytes before |pre| and do not pass through lexHeaderParam, the text state
+   that keep the cursor M = 24 bytes before |pre|, the text state
    (the inside of a tag); f = pre ++ r2 any file with the same first |pre| bytes in which plain text and a
    closing brace (white space and an illegal character) follow that cursor: the items of f are the items
    the valid scan had sent followed by the error item just after the offending character, whose line is
    1 + the line feeds before that character.  Proved (2), without the margin: the same from every
    configuration the scan of f itself reaches.  Missing for the full statement: the margin (a fault
-   closer than 24 bytes to the last tag boundary before it), header declarations, and the other fault
+   closer than 24 bytes to the last tag boundary before it) and the other fault
    classes (covered by C19_parse_error_position as to WHICH item is reported, not as to its line). *)
 Theorem C19_fault_line_partial :
   forall ul ud, ul (-1)%Z = false -> ud (-1)%Z = false ->
   (forall pre r1 r2 k l txt rest fuel,
      steps ul ud (pre ++ r1) 0 k LText lex_init = Ok (LText, l) ->
      (forall j stj lj, (j <= k)%nat -> steps ul ud (pre ++ r1) 0 j LText lex_init = Ok (stj, lj) ->
-        before_margin pre lj /\ ((j < k)%nat -> stj <> LHeaderParam)) ->
+        before_margin pre lj) ->
      drop (Z.to_nat (l_pos l)) (pre ++ r2) = txt ++ 125 :: rest -> Forall plain txt ->
      let f := pre ++ r2 in
      let e := err_item (l_pos l + Z.of_nat (length txt) + 1) e_close_brace in
@@ -368,7 +367,7 @@ Theorem C19_fault_line_partial :
   (forall pre r1 r2 k l ws c rest fuel,
      steps ul ud (pre ++ r1) 0 k LText lex_init = Ok (LInsideTag, l) ->
      (forall j stj lj, (j <= k)%nat -> steps ul ud (pre ++ r1) 0 j LText lex_init = Ok (stj, lj) ->
-        before_margin pre lj /\ ((j < k)%nat -> stj <> LHeaderParam)) ->
+        before_margin pre lj) ->
      drop (Z.to_nat (l_pos l)) (pre ++ r2) = ws ++ c :: rest -> Forall space_byte ws -> c < 128 ->
      reaches_default (Z.of_N c) = true -> c <> 10 ->
      let f := pre ++ r2 in
